@@ -18,7 +18,7 @@ ProfileFn findProfile(const std::string& name) {
 bool synthInitial(const json& spec, NifFile& nif, Ctx& ctx, std::string* fileBytes);    // gen.cpp
 bool builderInitial(const json& spec, NifFile& nif, Ctx& ctx);  // builders.cpp
 
-bool attachBelowShape(NifFile& nif, NiShape* shape, const std::string& type, uint64_t seed, Ctx& ctx); // gen.cpp
+bool attachBelowShape(NifFile& nif, NiShape* shape, const std::string& type, uint64_t seed, Ctx& ctx, bool widePointers = false); // gen.cpp
 
 static bool makeInitial0(const json& src, NifFile& nif, Ctx& ctx, std::string* fileBytes) {
 	if (src.contains("sample")) {
@@ -55,7 +55,7 @@ static bool makeInitial0(const json& src, NifFile& nif, Ctx& ctx, std::string* f
 				auto shapes = nif.GetShapes();
 				if (shapes.empty()) return false;
 				std::string t = a.contains("type") && a["type"].is_string() ? a["type"].get<std::string>() : types[ju64(a, "type_index", 0) % types.size()];
-				if (!attachBelowShape(nif, shapes[ju64(a, "shape", 0) % shapes.size()], t, ju64(a, "seed", 1), ctx) && jbool(a, "required", true)) return false;
+				if (!attachBelowShape(nif, shapes[ju64(a, "shape", 0) % shapes.size()], t, ju64(a, "seed", 1), ctx, jbool(a, "wide_pointers", false)) && jbool(a, "required", true)) return false;
 			}
 		}
 		if (jbool(src, "settle", false)) {
